@@ -18,7 +18,7 @@ SPAN_ENS = ['degree <= result', 'result <= num_ctrlpts - 1', 'knot_vector[result
 
 CONTRACTS = {
     'helpers.find_span_linear': dict(
-        props=['C01', 'C02', 'C03', 'C04', 'C17', 'C18'],
+        props=['C01', 'C02', 'C03', 'C04', 'C05', 'C06', 'C07', 'C17', 'C18'],
         args=OD([('degree', 'int'), ('knot_vector', ('list', 'real')), ('num_ctrlpts', 'int'), ('knot', 'real'),
                  ('kwargs', 'kwargs')]),
         returns='int',
@@ -48,7 +48,7 @@ CONTRACTS = {
                        decreases='2 * (high - low) + (1 if mid == high else 0)')},
     ),
     'helpers.find_multiplicity': dict(
-        props=['C03', 'C04'],
+        props=['C03', 'C04', 'C05', 'C06', 'C07'],
         args=OD([('knot', 'real'), ('knot_vector', ('list', 'real')), ('kwargs', 'kwargs')]),
         returns='int',
         requires=[],
